@@ -100,5 +100,9 @@ func ToXText(env envs.Environment, x XValue) (*XText, *XError) {
 		return XTextEmpty, x.(*XError)
 	}
 
+	if xerr := CheckRenderSize(x, false); xerr != nil {
+		return XTextEmpty, xerr
+	}
+
 	return NewXText(x.Render()), nil
 }
